@@ -509,7 +509,10 @@ struct Mixed {
                             memcpy(d.data() + 8 * c, &f, 8);
                         }
                     }
-                MX("SDwritedata", SDwritedata(sds, start, NULL, edge, d.data()) == FAIL);
+                if (k == "sdnew" && o.arg(6) == 4) // a dataset that has no data yet (reads give the fill value, a later write fills it)
+                    ctx.probe("sd-without-data");
+                else
+                    MX("SDwritedata", SDwritedata(sds, start, NULL, edge, d.data()) == FAIL);
                 MX("SDendaccess", SDendaccess(sds) == FAIL);
                 return true;
             }
@@ -806,7 +809,7 @@ struct MixedGen {
                 if (k == 0 && r.chance(0.4))
                     return mkop(0, "sdnew2", {(int64_t)r.below(5), (int64_t)r.below(3), (int64_t)r.below(6), (int64_t)r.below(5), (int64_t)r.below(5), ds, 0, (int64_t)r.below(5)});
                 if (k == 0)
-                    return mkop(0, "sdnew", {(int64_t)r.below(5), (int64_t)r.below(3), (int64_t)r.below(6), (int64_t)r.below(5), (int64_t)r.below(5), ds, (int64_t)r.below(4)});
+                    return mkop(0, "sdnew", {(int64_t)r.below(5), (int64_t)r.below(3), (int64_t)r.below(6), (int64_t)r.below(5), (int64_t)r.below(5), ds, (int64_t)r.below(5)});
                 if (k == 1)
                     return mkop(0, "sdwrite", {(int64_t)r.below(5), ds});
                 return mkop(0, "sdattr", {(int64_t)r.below(5), (int64_t)r.below(1000), (int64_t)r.below(1000), (int64_t)r.below(3)});
